@@ -505,6 +505,14 @@ class HostBase:
             if ka == "bool":
                 return self.rel(a, b) == "eq"
             return self.ctx.choose(("same_object", min(a.id, b.id), max(a.id, b.id)), [False, True])
+        for x, y in ((a, b), (b, a)):
+            # state left behind by earlier calls may be any object that existed before this call: a document value,
+            # another harness-made object, a singleton; never an object created during this call
+            if isinstance(x, Opaque) and x.label.startswith("state-left-by-earlier-calls") and x is not y:
+                older = isinstance(y, (Sym, Opaque)) or (isinstance(y, Inst) and not y.constructed) or (isinstance(y, Const) and (y.value is None or isinstance(y.value, bool)))
+                if older:
+                    return self.ctx.choose(("same_object", "state", x.id, getattr(y, "id", repr(y))), [False, True])
+                return False
         if type(a) is not type(b):
             if isinstance(a, (Opaque, Term)) or isinstance(b, (Opaque, Term)):
                 if isinstance(a, Const) or isinstance(b, Const):
